@@ -66,6 +66,16 @@ class SimChannel:
         self.TXQ = 8                # depth of the senders' TX queue, in frames
         self._tx_slot = None
 
+    ts_quantum = 0      # receive timestamps: 0 exact, q > 0 rounded down to q ns (coarse driver clock), -1 always 0.0 (driver without timestamps)
+
+    def stamp(self, t):
+        q = self.ts_quantum
+        if q > 0:
+            t = t // q * q
+        elif q < 0:
+            return 0.0
+        return t / SEC
+
     def frame_time(self, dlc):
         return (47 + 8 * dlc) * SEC // self.bitrate
 
@@ -79,7 +89,7 @@ class SimChannel:
         ctx.log("tx", src.name, can_id, data, rtr, ext)
         for m in self.monitors:
             m(fr)
-        inline = self.inline_mode and origin == "send"
+        inline = self.inline_mode and origin in ("send", "peer-inline")
         start = ctx.now if ctx.now > self.busy_until else self.busy_until
         end = start + self.frame_time(len(data))
         self.busy_until = end
@@ -87,7 +97,7 @@ class SimChannel:
             if ep is src or ep.deaf:
                 continue
             if inline and ep.accept_inline:
-                ep.dispatch(can_id, data, rtr, ext, ctx.now / SEC)
+                ep.dispatch(can_id, data, rtr, ext, self.stamp(ctx.now))
                 continue
             for delay, repl in self.transport.route(fr, ep):
                 t = end + delay
@@ -133,7 +143,7 @@ class _Delivery:
         self.error = error
 
     def __call__(self):
-        self.ep.deliver(self.can_id, self.data, self.rtr, self.ext, self.t / SEC, self.error)
+        self.ep.deliver(self.can_id, self.data, self.rtr, self.ext, self.ep.channel_obj.stamp(self.t), self.error)
 
 
 class SimCyclicTask(can.broadcastmanager.CyclicSendTaskABC):
@@ -348,11 +358,15 @@ class PeerEndpoint(Endpoint):
         if self.handler is not None and not error:
             self.handler(can_id, data, rtr, ts)
 
-    def send(self, can_id, data, rtr=False, ext=None, delay=0):
+    def dispatch(self, can_id, data, rtr, ext, ts, error=False):
+        # inline delivery (inside the sender's send call) for peers that opted in with accept_inline
+        self.deliver(can_id, data, rtr, ext, ts, error)
+
+    def send(self, can_id, data, rtr=False, ext=None, delay=0, inline=False):
         if ext is None:
             ext = can_id > 0x7FF
         ch = self.channel_obj
         if delay:
             ch.ctx.after(delay, lambda: ch.transmit(self, can_id, data, rtr, ext, origin="peer"))
         else:
-            ch.transmit(self, can_id, data, rtr, ext, origin="peer")
+            ch.transmit(self, can_id, data, rtr, ext, origin="peer-inline" if inline else "peer")
